@@ -81,11 +81,12 @@ def run(ctx, cfg):
     # every history contains at least one call into each dialect (the two grammars share pyparsing's global defaults)
     crpool = [t for t in pool if "\r" in t] or pool
     tabpool = [t for t in pool if "\t" in t] or pool
-    for j in range(24 if quick else 120):
+    kwpool = [c["text"] for c in S["valid"] if c.get("kwcase")] or pool      # literal matching mode is process-wide too
+    for j in range(32 if quick else 160):
         before = [[rng.choice(["pil", "seesaw"]), rng.choice(pool + other)] for _ in range(rng.randint(1, 5))]
         before.insert(rng.randrange(len(before) + 1), ["pil", rng.choice(["length a = 5\n", "X = a( b )\r\n", "x = a( b\n"])])
         before.insert(rng.randrange(len(before) + 1), ["seesaw", rng.choice(["INPUT(1) = w[1,2]\n", "seesaw[", "INPUT(1) = w[1,2]\r\n"])])
-        extra.append({"kind": "history", "text": rng.choice([crpool, tabpool, pool][j % 3]), "before": before})
+        extra.append({"kind": "history", "text": rng.choice([crpool, tabpool, kwpool, pool][j % 4]), "before": before})
     out = run_oracle(ORACLE, {"cases": extra})
     spec += out["failures"]
     ctx.cov["oracle_checked"] = out["checked"]
